@@ -301,17 +301,18 @@ Fixpoint decode_at (top : bool) (s : schema) {struct s} : json -> res json :=
 Definition decode (s : schema) (j : json) : res json := decode_at true s j.
 
 (* ---------- UCI move text (consumer: lichess_bot/src/bot.rs maps UciMove::from_str over `moves`) ----------
-   uci/src/uci.rs  UciMove::from_str  +  core/src/constants/square.rs  Square::from_chars.
-   `(file as usize) - ('a' as usize)` overflows for file < 'a': a panic with overflow checks (dev profile,
-   the harness), a wrapped huge index => None without them. Characters after the fifth are ignored. *)
-Definition square_from_chars (file rank : N) : res N :=
-  if file <? 97 then Panic
+   uci/src/uci.rs  UciMove::from_str  +  core/src/constants/square.rs  Square::from_chars  (tree with the fixes
+   fed0946 and 4917da5):  `(file as usize).checked_sub('a')?` - a file character below 'a' is None, no panic;
+   the rank must be an ASCII digit 1..8;  an optional fifth character must name a piece (KQRBNP, either case);
+   anything after it is an error.  The parser never panics: the result is Ok / Err only. *)
+Definition square_from_chars (file rank : N) : option N :=
+  if file <? 97 then None
   else
     let f := file - 97 in
     if is_ascii_digit rank then
       let i := rank - 48 in
-      if (1 <=? i) && (i <=? 8) && (f <? 8) then Ok (f + (8 - i) * 8) else Err
-    else Err.
+      if (1 <=? i) && (i <=? 8) && (f <? 8) then Some (f + (8 - i) * 8) else None
+    else None.
 
 Definition piece_from_char (c : N) : option N :=
   let l := to_ascii_lower c in
@@ -322,24 +323,15 @@ Definition sq_text (i : N) : str := [97 + i mod 8; 48 + (8 - i / 8)].
 (* Ok = the Display text of the parsed move *)
 Definition uci_move_parse (s : str) : res str :=
   match s with
-  | c1 :: c2 :: r2 =>
-    match square_from_chars c1 c2 with
-    | Ok a =>
-      match r2 with
-      | c3 :: c4 :: r4 =>
-        match square_from_chars c3 c4 with
-        | Ok b =>
-          match r4 with
-          | [] => Ok (sq_text a ++ sq_text b)
-          | c5 :: _ => match piece_from_char c5 with Some p => Ok (sq_text a ++ sq_text b ++ [p]) | None => Err end
-          end
-        | Err => Err
-        | Panic => Panic
-        end
+  | c1 :: c2 :: c3 :: c4 :: r4 =>
+    match square_from_chars c1 c2, square_from_chars c3 c4 with
+    | Some a, Some b =>
+      match r4 with
+      | [] => Ok (sq_text a ++ sq_text b)
+      | [c5] => match piece_from_char c5 with Some p => Ok (sq_text a ++ sq_text b ++ [p]) | None => Err end
       | _ => Err
       end
-    | Err => Err
-    | Panic => Panic
+    | _, _ => Err
     end
   | _ => Err
   end.
